@@ -30,6 +30,7 @@ type vfHost struct {
 	handlers   map[protocol.ID]bool
 	connectErr map[peer.ID]bool
 	dialed     []peer.ID
+	bus        *vfBus
 }
 
 func (h *vfHost) ID() peer.ID                     { return h.id }
